@@ -559,7 +559,9 @@ def compare_itp(name, cb, co, base_run, opts, generic):
     ab, ib = records_of(cb)
     ao, io_ = records_of(co)
     errs, admitted = [], 0
+    ITP_DIFFS[:] = []
     if ab != ao:
+        ITP_DIFFS.append({'kind': 'atoms'})
         sb, so = {json.dumps(a) for a in ab}, {json.dumps(a) for a in ao}
         errs.append('%s [atoms] differ: only in original %s; only in transformed %s'
                     % (name, sorted(sb - so)[:4], sorted(so - sb)[:4]))
@@ -585,6 +587,7 @@ def compare_itp(name, cb, co, base_run, opts, generic):
                     extra = dihedral_slack(ids, pos.get(name[:-4], []))
                 bad = [(p, q) for p, q in zip(x, y) if not tok_close(p, q, generic, extra)]
                 if bad:
+                    ITP_DIFFS.append({'kind': 'param', 'sect': sect, 'ids': ids, 'skeleton': params, 'bad': bad})
                     errs.append('%s: %s has parameters %s in the original and %s in the transformed run'
                                 % (name, k, x, y))
                 else:
@@ -605,11 +608,75 @@ def compare_itp(name, cb, co, base_run, opts, generic):
             admitted += 1
             chk.count('admitted_threshold_pair')
         else:
+            ITP_DIFFS.append({'kind': 'count'})
             errs.append('%s: interaction %s occurs %d time(s) in the original and %d time(s) in the transformed run'
                         % (name, k, len(pb), len(po)))
     if not errs and not admitted:
+        ITP_DIFFS.append({'kind': 'unexplained'})
         errs.append('%s: canonical forms differ' % name)
     return errs, admitted
+
+
+ITP_DIFFS = []
+HREN_KINDS = ('hren', 'all', 'hrenlast')
+
+
+def first_residue_idents(run):
+    """molecule name -> set of ITP identities (resid, atom name) of the particles that lie in the first residue of
+    a chain of the coordinate file (.top order = coordinate order, as in bead_positions)"""
+    files = run['files']
+    tops = [n for n in files if n.endswith('.top')]
+    cg = parse_cg_pdb(files.get('cg.pdb', ''))
+    if not tops:
+        return {}
+    first = {}
+    for x in cg:
+        first.setdefault(x[0], x[1])
+    out, k = {}, 0
+    for name, count in molecules_of_top(files[tops[0]]):
+        itp = files.get(name + '.itp')
+        if itp is None:
+            return out
+        atoms = parse_itp(itp)['atoms']
+        for _ in range(count):
+            for key, resid, an, _f in atoms:
+                if k >= len(cg):
+                    return out
+                if first[cg[k][0]] == cg[k][1]:
+                    out.setdefault(name, set()).add((resid, an))
+                k += 1
+    return out
+
+
+def terminal_finding(p):
+    """the known finding a hydrogen-renaming run may show: F-C11-1 (neutral terminus requested) or F-C11-3 (martini22p)"""
+    if p['kind'] not in HREN_KINDS:
+        return None
+    if '-nt' in p['argv'] or 'NH2-ter' in p['argv']:
+        return 'F-C11-1'
+    if 'martini22p' in p['argv']:
+        return 'F-C11-3'
+    return None
+
+
+def itp_diffs_terminal(name, base_run):
+    """every difference of this ITP is a geometry-derived scFix angle/dihedral parameter of an interaction that involves
+    the BB bead of the first residue of a chain, deviating by <= 2 degrees"""
+    if not ITP_DIFFS:
+        return False
+    firsts = first_residue_idents(base_run).get(name[:-4], set())
+    for d in ITP_DIFFS:
+        if d['kind'] != 'param' or d['sect'] not in ('angles', 'dihedrals'):
+            return False
+        if not any(t.startswith('group:') and 'scFix' in t for t in d['skeleton']):
+            return False
+        idents = [tuple(i[0]) for i in d['ids'] if len(i) == 1]
+        if not any(i[1] == 'BB' and i in firsts for i in idents):
+            return False
+        for a, b in d['bad']:
+            if not (is_num(a) and is_num(b)) or abs(float(a) - float(b)) > 2.0:
+                return False
+    return True
 
 
 def compare_coords(base_run, other_run, motion):
@@ -653,7 +720,7 @@ DEVIATING = []
 def is_f_c11_1(p, errs_other_outputs):
     """signature of F-C11-1: hydrogens renamed, neutral N-terminus requested, nothing but the coordinates of
     particles of the first residue of a chain differ, by at most 0.05 A"""
-    return (p['kind'] in ('hren', 'all', 'hrenlast') and ('-nt' in p['argv'] or 'NH2-ter' in p['argv'])
+    return (terminal_finding(p) == 'F-C11-1'
             and not errs_other_outputs and DEVIATING
             and all(first and dev <= 0.05 for _k, dev, first, _i in DEVIATING))
 
@@ -674,7 +741,7 @@ def split_dummies(p, errs):
 def is_f_c11_3(p, errs_other_outputs):
     """signature of F-C11-3: martini22p, hydrogens renamed, nothing but the coordinates of non-dummy particles of the
     first residue of a chain differ, by at most 0.05 A"""
-    return (p['kind'] in ('hren', 'all', 'hrenlast') and 'martini22p' in p['argv']
+    return (terminal_finding(p) == 'F-C11-3'
             and not errs_other_outputs and DEVIATING
             and all(first and dev <= 0.05 for _k, dev, first, _i in DEVIATING))
 
@@ -946,6 +1013,8 @@ for p in plans:
                 e, adm = compare_itp(n, cb, co, rb, opt_values(p['argv']), generic)
                 errs += e
                 chk.count('itp_identical' if cb == co else ('itp_admitted' if not e else 'itp_differs'))
+                if e and terminal_finding(p) and itp_diffs_terminal(n, rb):
+                    finding = terminal_finding(p)
             else:
                 # no driver: fall back on the Python canonicaliser so that a failing input is still found
                 cb, co = py_canon(rb['tops'][n]), impl
@@ -956,6 +1025,7 @@ for p in plans:
             chk.count('interactions', ninter)
             if rb['tops'][n]['other'] != ro['tops'][n]['other'] or rb['tops'][n]['name'] != ro['tops'][n]['name']:
                 errs.append('%s: moleculetype header differs' % n)
+                finding = None
         elif n.endswith('.top'):
             impl = '\n'.join(top_body(ro['files'][n]))
             if top_body(rb['files'][n]) != top_body(ro['files'][n]):
@@ -979,7 +1049,7 @@ for p in plans:
             body_o = [l for l in ro['files'][n].split('\n') if not l.startswith(';')]
             if body_b != body_o:
                 errs.append('%s differs' % n)
-        if errs and n != 'cg.pdb':
+        if errs and n != 'cg.pdb' and finding is None:
             other_errs += 1
         if errs:
             po, pt = save_replay_files(p, b)
